@@ -167,8 +167,9 @@ class IntermediateStates:
             )
 
             # prefactor due to the sum - sum_J |J><J|I>
+            n_ov_low = n_ov_from_space(lower_space)
             prefactor = Rational(
-                1, factorial(n_ov["occ"]) * factorial(n_ov["virt"])
+                1, factorial(n_ov_low["occ"]) * factorial(n_ov_low["virt"])
             )
 
             # orthogonalise with respsect to the lower excited ISR state
